@@ -111,6 +111,13 @@ class C06(Check):
                 res.nontrivial = True
                 res.sigs.add('%s|%d|%s' % (mode, len(table), shape))
             self.probes(res, exp, table, path, method)
+            # routes that "fail" in the ways the property names are this world's faults
+            for e in table:
+                if e['out'] != 'ok' and R.path_matches(e, path) and R.admits(e['methods'], method)[0]:
+                    res.fire('route_outcome:' + e['out'])
+                    if exp.get('entry') is e or e['out'].startswith('nb'):
+                        continue
+                    break
             if bad:
                 res.violate(K + bad[0], 'step %s %s %s (mode %s): %s\n table: %s\n got: %s'
                             % (step, method, path, mode, bad[1],
